@@ -1,3 +1,5 @@
 import Bng.Spec.C17
+import Bng.Spec.C17Locks
 import Bng.Audit
 #audit_module Bng.Spec.C17
+#audit_module Bng.Spec.C17Locks
